@@ -18,7 +18,9 @@ func TestMain(m *testing.M) { vk.Main(m) }
 type Scenario struct {
 	Root string `json:"root"` // "S" or "P"
 	Tree *Node  `json:"tree"`
-	Fail int    `json:"fail"` // ForEach: callback index that returns an error (taken modulo len+1; == len: none)
+	// Other: a second Seq expression drained step-alternately with the first (state shared between iterators would show)
+	Other *Node `json:"other,omitempty"`
+	Fail  int   `json:"fail"` // ForEach: callback index that returns an error (taken modulo len+1; == len: none)
 }
 
 // ---- generators
@@ -193,10 +195,73 @@ func Run(sc Scenario) (msg string) {
 			return fmt.Sprintf("pair.ForEach failing at callback %d of %d returned %v", k, n, err)
 		}
 	}
+	if sc.Other != nil {
+		if m := runAlternately(sc); m != "" {
+			return m
+		}
+	}
 	for _, src := range b.sources {
 		if !reflect.DeepEqual(src[0], src[1]) {
 			return fmt.Sprintf("a source slice (or the buffer capacity behind it) was modified: now %v, was %v", src[0], src[1])
 		}
+	}
+	return ""
+}
+
+// runAlternately builds both expressions first, then advances them in turns.
+func runAlternately(sc Scenario) string {
+	b := &builder{}
+	wantB := evalS(sc.Other, 0)
+	itB := b.S(sc.Other, 0)
+	var gotA []string
+	var wantA []string
+	var next func() (string, bool)
+	if sc.Root == "S" {
+		for _, x := range evalS(sc.Tree, 0) {
+			wantA = append(wantA, fmt.Sprint(x))
+		}
+		it := b.S(sc.Tree, 0)
+		has := it != nil
+		next = func() (string, bool) {
+			if !has {
+				return "", false
+			}
+			v := fmt.Sprint(it.Value())
+			has = it.Next()
+			return v, true
+		}
+	} else {
+		for _, x := range evalP(sc.Tree, 0) {
+			wantA = append(wantA, fmt.Sprint(x))
+		}
+		it := b.P(sc.Tree, 0)
+		has := it != nil
+		next = func() (string, bool) {
+			if !has {
+				return "", false
+			}
+			v := fmt.Sprint(kv{it.Key(), it.Value()})
+			has = it.Next()
+			return v, true
+		}
+	}
+	gotB := []int{}
+	hasB := itB != nil
+	for steps := 0; steps < len(wantA)+len(wantB)+2*slack; steps++ {
+		va, okA := next()
+		if okA {
+			gotA = append(gotA, va)
+		}
+		if hasB {
+			gotB = append(gotB, itB.Value())
+			hasB = itB.Next()
+		}
+		if !okA && !hasB {
+			break
+		}
+	}
+	if !reflect.DeepEqual(append([]string{}, gotA...), append([]string{}, wantA...)) || !reflect.DeepEqual(gotB, wantB) {
+		return fmt.Sprintf("two expressions drained alternately: first gave %v (want %v), second gave %v (want %v)", gotA, wantA, gotB, wantB)
 	}
 	return ""
 }
@@ -246,7 +311,11 @@ func check(prop string, t interface{ Fatalf(string, ...any) }, sc Scenario) {
 
 func propC14(t *rapid.T) {
 	d := rapid.IntRange(1, 6).Draw(t, "depth")
-	check("C14", t, Scenario{Root: "S", Tree: genS(t, d, false), Fail: rapid.IntRange(0, 40).Draw(t, "fail")})
+	sc := Scenario{Root: "S", Tree: genS(t, d, false), Fail: rapid.IntRange(0, 40).Draw(t, "fail")}
+	if rapid.IntRange(0, 3).Draw(t, "second") == 0 {
+		sc.Other = genS(t, rapid.IntRange(1, 4).Draw(t, "depth2"), false)
+	}
+	check("C14", t, sc)
 }
 
 func TestC14(t *testing.T) { rapid.Check(t, propC14) }
@@ -277,6 +346,9 @@ func propC15(t *rapid.T) {
 			sc.Tree = n
 		} else {
 			sc.Root, sc.Tree = "P", genP(t, d)
+		}
+		if rapid.IntRange(0, 3).Draw(t, "second") == 0 {
+			sc.Other = genS(t, rapid.IntRange(1, 4).Draw(t, "depth2"), true)
 		}
 		check("C15", t, sc)
 	}
